@@ -17,8 +17,8 @@ yields ub = 0 for every zone whose first rank exceeds the cut-off.
 that calls evaluate_at depends on the `limit` argument (matches deeper in a zone than the remaining limit would be masked out as if they had failed the predicate).
 Does NOT decide: the remaining arithmetic of the RLTE planner (which min/max a partial ladder yields, zone sizes after compaction), slice positions, typed order of ScalarValue::compare (value level).
 """
-FLOOR = 8
-REQUIRED = ["C10.a", "C10.b", "C10.c", "C10.d", "C10.e1", "C10.e2", "C10.f", "C10.g"]
+FLOOR = 9
+REQUIRED = ["C10.a", "C10.b", "C10.c", "C10.d", "C10.e1", "C10.e2", "C10.f", "C10.g", "C10.h"]
 
 COPIES = ["engine::core::read::segment_query_runner::compare_scalar_values",
           "engine::core::read::flow::operators::memtable_source::compare_scalar_values",
@@ -297,3 +297,36 @@ def run(ctx):
                 bad.append(("order-field-projected-away:%s" % cb.key.split("::{closure")[0].split("::")[-1], "%s builds the RETURN projection without the ORDER BY field: the column the ordered merges look up is projected away (500 'order by field missing')" % cb.key.split("::{closure")[0].split("::")[-1], sp(cb, c.bb)))
         return bad
     ctx.run("C10.g", "K7 PROV", "SelectionProjection::compute / shard_pipeline::compute_return_projection", "a narrowing RETURN keeps the ORDER BY column", g_)
+
+    def h_(inst):
+        """ORDER BY sorts each shard's rows and merges the shard streams with ScalarValue::compare. A sort needs a total order; compare
+        picks its comparison lane (u64 / i64 / f64 / bool / text) PER PAIR through accessors, and an accessor that parses text makes
+        the lane depend on the two values: "9" < "10" (numbers), "10" < "1a" < "9" (text) is a cycle, so the result depends on the
+        input order and on the placement of the rows. Necessary condition decided here: no lane accessor that compare tries before
+        the text lane turns a Utf8 value into a number / bool by parsing it."""
+        bad = []
+        c = F.fn("engine::types::ScalarValue::compare")
+        lanes = []
+        hit = []
+        for x in c.calls:
+            if x.cleanup:
+                continue
+            m = re.search(r"ScalarValue::(as_u64|as_i64|as_f64|as_bool)$", x.nname)
+            if m and m.group(1) not in lanes:
+                lanes.append(m.group(1))
+        if len(lanes) < 2:
+            raise AnchorMissing("the lane accessors of ScalarValue::compare (found %s)" % lanes)
+        for ln in lanes:
+            a = F.fn("engine::types::ScalarValue::" + ln)
+            sw = param_enum_switches(a, r"ScalarValue$", "self")
+            if not sw:
+                raise AnchorMissing("match on self in ScalarValue::%s" % ln)
+            ar = arms(a, sw[0][0])
+            parses = [x for x in a.calls if not x.cleanup and x.bb in ar.get("Utf8", set()) and re.search(r"str::parse$|FromStr>::from_str$|to_ascii_lowercase$|eq_ignore_ascii_case$", x.nname)]
+            inst.sites.append("%s: Utf8 arm parses text: %s" % (ln, bool(parses)))
+            if parses:
+                hit.append((ln, sp(a, parses[0].bb)))
+        if hit:
+            bad.append(("compare-lane-by-parsing", "ScalarValue::compare chooses its lane through %s, which parse Utf8 text: for a string column the lane depends on the pair of values and the comparison is not a total order (\"10\" < \"1a\" < \"9\" < \"10\")" % ", ".join(h for h, _ in hit), hit[0][1]))
+        return bad
+    ctx.run("C10.h", "K10 READS", "engine::types::ScalarValue::compare", "the ORDER BY comparator does not choose its lane from the text of the two values", h_)
